@@ -119,7 +119,7 @@ impl<'a, T: QueryToRelationTranslator + Copy + Clone> VisitedQueryRelations<'a, 
         try_into_relation_visitor: &TryIntoRelationVisitor<'a, T>,
         query: &'a ast::Query,
         visited: Visited<'a, ast::Query, Result<Arc<Relation>>>,
-    ) -> Self {
+    ) -> Result<Self> {
         let TryIntoRelationVisitor {
             relations,
             query_names,
@@ -128,11 +128,10 @@ impl<'a, T: QueryToRelationTranslator + Copy + Clone> VisitedQueryRelations<'a, 
         } = try_into_relation_visitor;
         let mut relations: Hierarchy<Arc<Relation>> = (*relations).clone();
 
-        relations.extend(
-            query_names
-                .name_referred(query)
-                .map(|(name, referred)| (name.clone(), visited.get(referred).clone().unwrap())),
-        );
+        // An error in a sub-query is the error of the query
+        for (name, referred) in query_names.name_referred(query) {
+            relations.extend([(name.clone(), visited.get(referred).clone()?)]);
+        }
 
         let aliases = Hierarchy::from_iter(query_names.name_referred(query).filter_map(
             |(name, referred)| {
@@ -146,12 +145,12 @@ impl<'a, T: QueryToRelationTranslator + Copy + Clone> VisitedQueryRelations<'a, 
                 }
             },
         ));
-        VisitedQueryRelations {
+        Ok(VisitedQueryRelations {
             relations,
             visited,
             translator: *translator,
             aliases: aliases,
-        }
+        })
     }
 
     /// Convert a TableFactor into a RelationWithColumns
@@ -834,7 +833,7 @@ impl<'a, T: QueryToRelationTranslator + Copy + Clone> Visitor<'a, Result<Arc<Rel
         query: &'a ast::Query,
         visited: Visited<'a, ast::Query, Result<Arc<Relation>>>,
     ) -> Result<Arc<Relation>> {
-        let visited_query_relations = VisitedQueryRelations::new(self, query, visited);
+        let visited_query_relations = VisitedQueryRelations::new(self, query, visited)?;
         // Retrieve a relation before ORDER BY and LIMIT
         let relation = visited_query_relations.try_from_query(query)?;
         Ok(relation)
